@@ -3,6 +3,7 @@ import Spydr.IR.Model
 import Spydr.IR.NamesModel
 import Spydr.IR.Events
 import Spydr.IR.Clone
+import Spydr.IR.CloneElem
 open Lean Spydr.Proto Spydr.IR
 
 def getOptInt (j : Json) (k : String) : Except String (Option Int) :=
@@ -223,6 +224,22 @@ def handle (st : DState) (j : Json) : Except String (DState × Json) := do
   | "double" =>
     let off ← getNat j "off"
     pure ({ st with s := s.double off }, Json.mkObj [("ok", Json.bool true)])
+  | "cloneElem" =>
+    let off ← getNat j "off"
+    let x ← getNat j "x"
+    let k ← match (← getStr j "kind") with
+      | "library" => pure CKind.library
+      | "definition" => pure CKind.definition
+      | "instance" => pure CKind.«instance»
+      | "port" => pure CKind.port
+      | "cable" => pure CKind.cable
+      | "wire" => pure CKind.wire
+      | "pin" => pure CKind.pin
+      | o => throw s!"bad kind {o}"
+    let rs := s.cloneElemRes off k x
+    pure ({ st with s := s.cloneElem off k x }, Json.mkObj [("ok", Json.bool true),
+      ("script_len", Json.num (JsonNumber.fromNat rs.length)),
+      ("res", Json.arr ((rs.map (fun r => Json.str (resStr r))).toArray))])
   | "dop" =>
     let op ← dopOf (← j.getObjVal? "op")
     let (d', ok) := dstep st.d op
